@@ -2,6 +2,7 @@ package c18
 
 import (
 	"fmt"
+	"math"
 	"sort"
 	"strconv"
 	"strings"
@@ -260,7 +261,23 @@ func checkSolvMap(items []item, max int, over bool, m algz.DpSolvers[item], line
 		}
 	}
 	// Best / BestAllowMinOverflow against their specification on the returned key set
-	for q := -1; q <= maxTotal+1; q++ {
+	// queries: every q in -1..total+1 for small totals; for totals near the int64 guard only the
+	// neighbourhood of every key (no q+1 beyond math.MaxInt)
+	var queries []int
+	if maxTotal <= 4096 {
+		for q := -1; q <= maxTotal+1; q++ {
+			queries = append(queries, q)
+		}
+	} else {
+		queries = append(queries, -1, 0, 1, max)
+		for _, k := range keys {
+			queries = append(queries, k-1, k)
+			if k < math.MaxInt {
+				queries = append(queries, k+1)
+			}
+		}
+	}
+	for _, q := range queries {
 		got := m.Best(q)
 		want, ok := bruteBest(keys, q)
 		if (got == nil) != !ok || (ok && fmt.Sprint(idsOf(got)) != fmt.Sprint(idsOf(m[want]))) {
@@ -543,8 +560,96 @@ func checkLargeGraphOp(gc *graphCase, a adj, t []string, out, line string) *core
 			in[v] = true
 		}
 		return compareCliquesLarge(got, a, line)
+	case "bkx":
+		g := splitBar(t[1:])
+		if len(g) != 3 {
+			return nil
+		}
+		R, _ := atoiAll(g[0], gc.n)
+		P, _ := atoiAll(g[1], gc.n)
+		X, _ := atoiAll(g[2], gc.n)
+		// precondition of the invariant: R, P, X duplicate-free and pairwise disjoint, R a clique,
+		// P ∪ X = the common neighbours of R (otherwise the call is outside the property)
+		where := make([]byte, gc.n) // 'r', 'p', 'x'
+		for _, grp := range []struct {
+			tag byte
+			vs  []int
+		}{{'r', R}, {'p', P}, {'x', X}} {
+			for _, v := range grp.vs {
+				if where[v] != 0 {
+					return nil
+				}
+				where[v] = grp.tag
+			}
+		}
+		for i, r := range R {
+			for _, s := range R[i+1:] {
+				if !a[r][s] {
+					return nil
+				}
+			}
+		}
+		for v := 0; v < gc.n; v++ {
+			if where[v] == 'r' {
+				continue
+			}
+			all := true
+			for _, r := range R {
+				if !a[v][r] {
+					all = false
+					break
+				}
+			}
+			if all != (where[v] == 'p' || where[v] == 'x') {
+				return nil
+			}
+		}
+		got, ok := parseCliques(out)
+		if !ok {
+			return fail("cliques-output", "%q: BronKerbosch answered %q", line, out)
+		}
+		// expected: the maximal cliques C of the whole graph with R ⊆ C ⊆ R ∪ P
+		want := map[string]bool{}
+		for _, c := range pivotMaximalCliques(a) {
+			okc, nr := true, 0
+			for _, v := range c {
+				switch where[v] {
+				case 'r':
+					nr++
+				case 'p':
+				default:
+					okc = false
+				}
+			}
+			if okc && nr == len(R) {
+				want[fmt.Sprint(c)] = true
+			}
+		}
+		seen := map[string]bool{}
+		for _, c := range got {
+			d := append([]int{}, c...)
+			sort.Ints(d)
+			for i := 1; i < len(d); i++ {
+				if d[i] == d[i-1] {
+					return fail("cliques-repeated-vertex", "%q: clique %v repeats a vertex", line, c)
+				}
+			}
+			k := fmt.Sprint(d)
+			if seen[k] {
+				return fail("cliques-duplicate", "%q: clique %v reported twice", line, d)
+			}
+			seen[k] = true
+			if !want[k] {
+				return fail("cliques-not-maximal-clique", "%q: %v is reported but is not a maximal clique C with R ⊆ C ⊆ R ∪ P", line, d)
+			}
+		}
+		for k := range want {
+			if !seen[k] {
+				return fail("cliques-missing", "%q: maximal clique %s with R ⊆ C ⊆ R ∪ P is not reported (%d reported, %d exist)", line, k, len(got), len(want))
+			}
+		}
 	}
-	return nil // bkx states are only checked on small graphs (the correspondence still compares them)
+	return nil
 }
 
 func maskOf(c []int) (int, bool) {
